@@ -414,21 +414,33 @@ pub fn sync_address_lp_weight_history(
     save_last_lp_weight: bool,
 ) -> Result<(), ContractError> {
     let (earliest_epoch_id, _) = get_earliest_address_lp_weight(storage, address, lp_denom)?;
-    let (latest_epoch_id, latest_address_lp_weight) =
+    let (latest_epoch_id, _) =
         get_latest_address_lp_weight(storage, address, lp_denom, current_epoch_id)?;
 
+    // when keeping the last weight, only the entries up to current_epoch_id are consumed. Entries
+    // recorded for later epochs, i.e. changes that have not taken effect yet, must be preserved.
+    let last_epoch_to_remove = if save_last_lp_weight {
+        latest_epoch_id.min(*current_epoch_id)
+    } else {
+        latest_epoch_id
+    };
+
+    // the weight in effect at current_epoch_id is the last one recorded up to that epoch
+    let mut weight_in_effect: Option<Uint128> = None;
+
     // remove previous entries
-    for epoch_id in earliest_epoch_id..=latest_epoch_id {
+    for epoch_id in earliest_epoch_id..=last_epoch_to_remove {
+        if let Some(weight) = LP_WEIGHT_HISTORY.may_load(storage, (address, lp_denom, epoch_id))? {
+            weight_in_effect = Some(weight);
+        }
         LP_WEIGHT_HISTORY.remove(storage, (address, lp_denom, epoch_id));
     }
 
     if save_last_lp_weight {
-        // save the latest weight for the current epoch
-        LP_WEIGHT_HISTORY.save(
-            storage,
-            (address, lp_denom, *current_epoch_id),
-            &latest_address_lp_weight,
-        )?;
+        if let Some(weight) = weight_in_effect {
+            // save the weight in effect for the current epoch
+            LP_WEIGHT_HISTORY.save(storage, (address, lp_denom, *current_epoch_id), &weight)?;
+        }
     }
 
     Ok(())
